@@ -104,6 +104,8 @@ def judge(ctx, graph, inst_name, entity, t, lane):
         return
     results = {}
     for backend in BACKENDS:
+        if backend == "django" and graph.inst.get("_dangling"):
+            continue        # Django enforces foreign keys on SQLite: such content cannot exist there
         ctx.count("evaluations")
         prob, detail, flags, nontrivial = compare(graph, entity, t, backend)
         if nontrivial:
@@ -148,8 +150,13 @@ def run(ctx):
     instances = [("canonical", R.canonical_instance())]
     for i in range(n_inst):
         instances.append(("random-%d-%d" % (ctx.shard, i), R.random_instance(rng)))
+    for i in range(ctx.pick(1, 4)):
+        instances.append(("dangling-%d-%d" % (ctx.shard, i), R.dangling_instance(rng)))
     for inst_name, inst in instances:
-        django_env.load_relational(inst)
+        if not inst.get("_dangling"):
+            django_env.load_relational(inst)
+        else:
+            ctx.cls("instances-with-dangling-keys")
         sqla_env.load_relational(inst)
         graph = R.Graph(inst)
         ctx.cls("instances")
@@ -159,6 +166,9 @@ def run(ctx):
             r = rng.random()
             entity = ("post" if r < 0.45 else "author" if r < 0.65 else "comment" if r < 0.85
                       else "tag" if r < 0.92 else "country" if r < 0.97 else "region")
+            if inst.get("_dangling"):
+                # more roots with a mandatory key (Post.home, Country.region)
+                entity = rng.choice(["post", "post", "country", "country", "author", "comment"])
             lane = "judged"
             opts = {}
             if i % 10 == 9:
